@@ -915,6 +915,16 @@ class HierOps:
             if len(obj) == 0:
                 return []
             return [norm_t(t) for t in obj.values.tolist()]
+        if P in ('C02', 'C05') and n and not pend and len(exp) % 2 == 0:
+            # iter_label as the FIRST read (before anything refreshes the caches): whole tuples and one depth
+            st_a, a = call(lambda: [norm_t(t) for t in obj.iter_label()])
+            st_b, b = call(lambda: norm_list(list(obj.iter_label(0))))
+            if st_a == 'raise' or a != exp:
+                fail('C02.bijection' if P == 'C02' else 'C05.grow' if (e.go and e.extra.get('last_growth')) else 'C05.views',
+                     f'iter_label() as first read {a!r:.300} != {exp!r:.300}')
+            if st_b == 'raise' or b != [t[0] for t in exp]:
+                fail('C02.bijection' if P == 'C02' else 'C05.grow' if (e.go and e.extra.get('last_growth')) else 'C05.views',
+                     f'iter_label(0) as first read {b!r:.300} != {[t[0] for t in exp]!r:.300}')
         st_i, it = call(lambda: [norm_t(t) for t in obj])
         st_v, vals = call(read_values)
         st_l, ln = call(len, obj)
